@@ -73,6 +73,7 @@ type rsWorld struct {
 	ends   [][2]*rsEnd // [stream][0 writer, 1 reader]
 	c      *rsCase
 	ghosts int32
+	waited int32
 	viol   atomic.Value
 }
 
@@ -126,9 +127,10 @@ func (w *rsWorld) fail(format string, a ...interface{}) {
 }
 
 type rsCB struct {
-	w  *rsWorld
-	e  *rsEnd
-	sp *rsStream
+	w      *rsWorld
+	e      *rsEnd
+	sp     *rsStream
+	noMore bool
 }
 
 func (a *rsCB) OnData(reader BufferReader) {
@@ -146,9 +148,36 @@ func (a *rsCB) OnData(reader BufferReader) {
 	if p.Take > 0 && p.Take < n {
 		n = p.Take
 	}
+	waits := false
+	if p.More > 0 && !a.noMore {
+		// a message spanning several flushes: wait inside OnData for bytes the writer is still going to flush
+		total := 0
+		for _, c := range a.sp.Chunks {
+			total += c
+		}
+		e.mu.Lock()
+		more := total - len(e.read) - reader.Len()
+		e.mu.Unlock()
+		if more > p.More {
+			more = p.More
+		}
+		if more > 0 {
+			n = reader.Len() + more
+			waits = true
+			atomic.AddInt32(&a.w.waited, 1)
+		}
+	}
 	if n > 0 {
+		if waits {
+			e.stream.SetReadDeadline(time.Now().Add(rsStall))
+		}
 		b, err := reader.ReadBytes(n)
-		if err != nil {
+		if err != nil && waits {
+			if isTimeout(err) {
+				a.w.fail("OnData waited %v inside ReadBytes(%d) for bytes the writer flushed (Len()=%d): %v", rsStall, n, reader.Len(), err)
+			}
+			a.noMore = true // the rest never came (a close ended the wait); nothing was consumed
+		} else if err != nil {
 			a.w.fail("OnData: ReadBytes(%d) with Len()=%d failed: %v", n, reader.Len(), err)
 		} else {
 			e.mu.Lock()
@@ -249,7 +278,8 @@ func genRsStream(t *rapid.T, focus string) rsStream {
 		np := rapid.IntRange(1, 4).Draw(t, "npol")
 		closes := false
 		for i := 0; i < np; i++ {
-			p := cbPolicy{Take: rapid.SampledFrom([]int{0, 0, 1, 5, 64, 1000}).Draw(t, "take")}
+			p := cbPolicy{Take: rapid.SampledFrom([]int{0, 0, 1, 5, 64, 1000}).Draw(t, "take"),
+				More: rapid.SampledFrom([]int{0, 0, 0, 1, 64, 5000}).Draw(t, "more")}
 			if rapid.IntRange(0, 5).Draw(t, "cbclose") == 0 {
 				p.Close = true
 				closes = true
@@ -688,6 +718,9 @@ func rsJudge(prop string, c rsCase, w *rsWorld, completed bool, r *runCtx) {
 	}
 	if atomic.LoadInt32(&w.ghosts) > 0 {
 		r.Label("ghost-stream")
+	}
+	if atomic.LoadInt32(&w.waited) > 0 {
+		r.Label("ondata-waited-for-more-bytes")
 	}
 }
 
